@@ -185,6 +185,9 @@ func (isolateComp) Exec(op string) (string, string, string, bool) {
 	if f[1] == "burstidle" {
 		return burstIdle(f[0])
 	}
+	if f[1] == "lastclose" {
+		return lastClose(f[0])
+	}
 	chans := map[string]string{"echo": "echo"}
 	if f[1] == "stalltarget" {
 		chans["sink"] = "unix-noread"
@@ -305,6 +308,144 @@ func (isolateComp) Exec(op string) (string, string, string, bool) {
 	return "ok", "", f[0] + " " + f[1], true
 }
 
+// latRelay: a TCP relay with a one-way latency: every chunk (and the end of the stream) is delivered `lat` after it was
+// read, in order.  It stands between the rig's Relay and the server endpoint (Relay.SetTarget).
+type latRelay struct {
+	ln   net.Listener
+	Addr string
+	mu   sync.Mutex
+	cs   []net.Conn
+}
+
+type latChunk struct {
+	at  time.Time
+	b   []byte
+	end bool
+}
+
+func newLatRelay(to string, lat time.Duration) (*latRelay, error) {
+	ln, err := net.Listen("tcp", "127.0.0.1:0")
+	if err != nil {
+		return nil, err
+	}
+	l := &latRelay{ln: ln, Addr: ln.Addr().String()}
+	oneWay := func(from, dst net.Conn) {
+		q := make(chan latChunk, 4096)
+		go func() {
+			for ch := range q {
+				if d := time.Until(ch.at); d > 0 {
+					time.Sleep(d)
+				}
+				if ch.end {
+					if tc, ok := dst.(*net.TCPConn); ok {
+						_ = tc.CloseWrite()
+					} else {
+						_ = dst.Close()
+					}
+					return
+				}
+				if _, err := dst.Write(ch.b); err != nil {
+					_ = from.Close()
+					return
+				}
+			}
+		}()
+		buf := make([]byte, 32768)
+		for {
+			n, err := from.Read(buf)
+			if n > 0 {
+				q <- latChunk{at: time.Now().Add(lat), b: append([]byte(nil), buf[:n]...)}
+			}
+			if err != nil {
+				q <- latChunk{at: time.Now().Add(lat), end: true}
+				close(q)
+				return
+			}
+		}
+	}
+	go func() {
+		for {
+			c, err := ln.Accept()
+			if err != nil {
+				return
+			}
+			d, err := net.Dial("tcp", to)
+			if err != nil {
+				_ = c.Close()
+				continue
+			}
+			l.mu.Lock()
+			l.cs = append(l.cs, c, d)
+			l.mu.Unlock()
+			go oneWay(c, d)
+			go oneWay(d, c)
+		}
+	}()
+	return l, nil
+}
+
+func (l *latRelay) Close() {
+	_ = l.ln.Close()
+	l.mu.Lock()
+	for _, c := range l.cs {
+		_ = c.Close()
+	}
+	l.mu.Unlock()
+}
+
+// `isolate <carrier> lastclose`: the carrier has a one-way latency of 150 ms (a mobile or intercontinental link).  A
+// logical connection A is the only one of its session; its application closes it, and 60 ms later — while A's close is
+// still travelling — the application opens connection B.  B must be served like any other connection; repeated with B
+// in A's place.  Afterwards, with two connections open, one is closed and the other must keep echoing.
+func lastClose(carrier string) (string, string, string, bool) {
+	class := carrier + " lastclose"
+	rig, err := NewRig(RigOpts{Carrier: carrier, Insecure: true, Relay: true})
+	if err != nil {
+		return "fail:rig", err.Error(), "fail", false
+	}
+	defer rig.Close()
+	if rig.Relay == nil || rig.ServerAddr == "" {
+		return "bad-op", "", "bad", false
+	}
+	lat, err := newLatRelay(rig.ServerAddr, 150*time.Millisecond)
+	if err != nil {
+		return "fail:rig", err.Error(), "fail", false
+	}
+	defer lat.Close()
+	rig.Relay.SetTarget(lat.Addr)
+	dl := 10 * time.Second
+	a, err := appEcho(rig.AppAddrs["echo"], dl)
+	if err != nil {
+		return "fail:conn", err.Error(), "fail", false
+	}
+	for round := 1; round <= 4; round++ {
+		_ = a.Close()
+		time.Sleep(time.Duration(20+40*(round%3)) * time.Millisecond)
+		b, err := appEcho(rig.AppAddrs["echo"], dl)
+		if err != nil {
+			return "fail", fmt.Sprintf("round %d: a connection opened while the session's only other connection was being closed (carrier latency 150 ms) was not served: %v", round, err), class, false
+		}
+		a = b
+	}
+	// two open, one closes, the other keeps going and a third is served
+	b, err := appEcho(rig.AppAddrs["echo"], dl)
+	if err != nil {
+		return "fail", fmt.Sprintf("second concurrent connection: %v", err), class, false
+	}
+	defer b.Close()
+	_ = a.Close()
+	time.Sleep(400 * time.Millisecond)
+	if err := echoAgain(b, 64, 78, dl); err != nil {
+		return "fail", fmt.Sprintf("connection B broke after connection A of the same session was closed: %v", err), class, false
+	}
+	c, err := appEcho(rig.AppAddrs["echo"], dl)
+	if err != nil {
+		return "fail", fmt.Sprintf("a connection opened after another one was closed was not served: %v", err), class, false
+	}
+	_ = c.Close()
+	return "ok", "", class, true
+}
+
 // `isolate <carrier> burstidle`: six client sessions on one server endpoint; on each, 32 logical connections are opened
 // at the same moment and prove they exist; then everything stays idle for 23 s (longer than any handshake or selection
 // time-out of the implementation) and every connection must still echo: nothing that is armed while a connection is
@@ -392,6 +533,8 @@ func (isolateComp) Gen(r *Rand, tier string, emit func(string)) {
 	}
 	emit("ws refusedmid")
 	emit("tcp burstidle")
+	emit("tcp lastclose")
+	emit("ws lastclose")
 	emit("ws stalltarget")
 	emit("ws rst")
 	emit("stdio rst")
